@@ -54,6 +54,8 @@ def make_plan(seed: int, tier: str) -> dict:
         steps.append({"sel": st.randint(0, 7), "ind": True, "t_inv": 1.0,
                       "proposal": st.choice(["tail", "huge", "huge_one", "ordinary"]), "huge_scale": st.choice([8.0, 20.0, 40.0]),
                       "tail_scale": 5.0, "decision": st.choice(["natural", "accept_all", "random"]), "foreign": "none", "order": "seeded"})
+    if st.bernoulli(0.2):
+        cfg["unit_scale_param"] = st.choice(["tau_std", "xi_std", "noise_std"])
     return {"seed": seed, "tier": tier, "engine": "fitsim_c08", "type": "tail", "world": cfg, "steps": steps}
 
 
